@@ -26,9 +26,14 @@ RULE = ("generated geometries x option sets (both APIs, all methods) with a HIST
 THEOREM_BACKED = ("decode_is_a_function (trivial); expert_encoder_state_irrelevant / encoder_state_irrelevant / "
                   "expert_reused_eq_fresh / encoder_reused_eq_fresh / decoder_state_irrelevant (API objects as state "
                   "machines: the output of call n is a function of the setter calls and the geometry / bytes only); "
-                  "encoder_counts_depend_on_history (faithful negative result for the counters of draco::Encoder); "
-                  "trailing_bytes_stable_header / trailing_bytes_stable_att_descs / stable_remaining_size (DecM readers "
-                  "that only look at what they consume are unaffected by appended bytes; remaining_is_not_stable)")
+                  "encoder_counts_after_success / encoder_counts_history_independent / expert_counts_after_success (the "
+                  "counters after a successful encode, repaired Encoder of /repo 85f04a5; "
+                  "prefix_encoder_counts_depend_on_history = witness for the code before that fix); "
+                  "encoded_stream_trailing_bytes_ignored_seq / _kd, encoded_stream_two_tails_seq / _kd (encoder-produced "
+                  "streams: result independent of appended bytes, consumed = stream length; corollaries of C01); for "
+                  "arbitrary accepted byte strings trailing_bytes_stable_header / _att_descs / _raw_symbols / "
+                  "_tagged_symbols_inside, bit_read_inside_stable, and where it ends: remaining_is_not_stable, "
+                  "bit_read_past_end_not_stable")
 CORRESPONDENCE_ONLY = ("runtime determinism (uninitialised memory, container order, heap layout) is OBSERVED by "
                        "perturbation, not proved: the property is labelled partial")
 EXPLANATION = ("the logic part is small: decoding is a function by construction of the model; the API state machine "
@@ -37,11 +42,12 @@ EXPLANATION = ("the logic part is small: decoding is a function by construction 
 ASSUMPTIONS = ["glibc malloc honours MALLOC_PERTURB_/MALLOC_ARENA_MAX/MALLOC_MMAP_THRESHOLD_; personality(ADDR_NO_RANDOMIZE) "
                "permitted (the op det_env reports the effective state, recorded in input_distribution)"]
 TIMEOUT = 3000
-# The property speaks of the encoded BYTES and the decoded geometry. The encoder objects also expose
-# num_encoded_points()/num_encoded_faces(); Encoder::EncodePointCloudToBuffer never updates them, so after a point
-# cloud encode they keep the values of an earlier mesh encode (see notes/c0506.md). Observed and tagged
-# (input_distribution `observation:stale-encoded-counts`), a violation only when this switch is on.
-COUNTS_ARE_OUTPUT = False
+# The encoder objects also expose num_encoded_points()/num_encoded_faces(). Before /repo 85f04a5
+# Encoder::EncodePointCloudToBuffer never updated them (found by the flag `rcounts` of this check: stale values of an
+# earlier mesh encode, see notes/c0506.md); since that fix they are a function of setters + geometry after every
+# successful encode (Lean: encoder_counts_history_independent) and `rcounts` — fresh repeats and the reused object in
+# all three buffer disciplines against the reference — is part of the oracle. What the counts must BE is C09's matter.
+COUNTS_ARE_OUTPUT = True
 
 ENVS = [
     ("aslr-off", {"VH_NO_ASLR": "1"}),
@@ -132,10 +138,25 @@ def det_line(rng, family):
             g = G.rand_point_cloud(rng, rng.choice([1, 5, 64, 65, 200]), specs=specs, dedup_maps=False)
             while g.num_points == 0:
                 g = G.rand_point_cloud(rng, 20, specs=specs, dedup_maps=False)
+            if rng.random() < 0.6:
+                # last attribute: signed integers far from zero — the kd-tree attribute coder stores the per-component
+                # minimum as a (then 4..5 byte) zig-zag varint at the very END of the stream
+                dt, lim = rng.choice([("i32", 31), ("i32", 31), ("i16", 15), ("i8", 7)])
+                nc = rng.choice([1, 1, 2, 3])
+                base = [rng.choice([-1, 1]) * rng.choice([(1 << (lim - 4)) + rng.randrange(1 << (lim - 4)), (1 << lim) - 1 - rng.randrange(40),
+                                                          (1 << (lim - 1)) + rng.randrange(1000 if lim > 10 else 20)])
+                        for _ in range(nc)]
+                lo, hi = -(1 << lim), (1 << lim) - 1
+                rows = []
+                for _ in range(g.num_points):
+                    rows.append([max(lo, min(hi, b + (rng.randrange(30) if b < 0 else -rng.randrange(30)))) for b in base])
+                fmt = "<" + G.DT_FMT[G.DT[dt]] * nc
+                vals = b"".join(struct.pack(fmt, *r) for r in rows)
+                g.atts.append(G.Attr(G.GENERIC, G.DT[dt], nc, False, 7, g.num_points, None, vals))
         expert = rng.random() < 0.5
         toks = det_options(rng, g, expert=expert)
         if family == "kd":
-            toks = [t for t in toks if not t.startswith(("method=", "q"))] + ["method=1", f"q0={rng.choice([8, 11, 14])}"]
+            toks = [t for t in toks if not t.startswith(("method=", "q", "x", "p"))] + ["method=1", f"q0={rng.choice([8, 11, 14])}"]
         if family == "speedmethod":
             toks = [t for t in toks if not t.startswith(("method=", "speed="))]
             main_speed = rng.choice([10, rng.randint(0, 9)])
@@ -234,7 +255,7 @@ def first_diff(a, b):
 def base_cases(rng, tier):
     cases = []
     n = 1800 if tier == "thorough" else 600
-    fams = ["general"] * 6 + ["speedmethod"] * 2 + ["kd"] + ["sparse"]
+    fams = ["general"] * 5 + ["speedmethod"] * 2 + ["kd"] * 2 + ["sparse"]
     for i in range(n):
         fam = fams[i % len(fams)]
         line, tags = det_line(rng, fam)
@@ -264,6 +285,17 @@ def base_cases(rng, tier):
                ("" if not hist else " " + " ".join(hist))
         cases.append(Case(line, model=False, oracle=detdec_oracle, tags=("det_dec", e["kind"], "class:" + e["class"]), note=e["name"]))
     return cases
+
+
+class SanCase(Case):
+    """a case of the ASan+UBSan subset: a sanitizer abort gets a signature that names the source location, so that
+    a defect of the encoder that is not a determinism matter can be listed as a known finding without masking others"""
+
+    @property
+    def sig_override(self):
+        import re
+        m = re.search(r"src/draco/([\w/.]+:\d+)", self.hout or "")
+        return ("sanitizer:" + m.group(1)) if m else None
 
 
 def with_envs(base, envs, control_ref, flavour="plain"):
@@ -315,7 +347,7 @@ def generate(rng, tier):
         cases += vg
         # and the base set once under ASan+UBSan
         for b in base[::3]:
-            c = Case(b.op, model=False, oracle=env_oracle(b, "asan"), tags=("flavour:asan",), flavour="asan", nontrivial=False, note=b.note)
+            c = SanCase(b.op, model=False, oracle=env_oracle(b, "asan"), tags=("flavour:asan",), flavour="asan", nontrivial=False, note=b.note)
             cases.append(c)
     return cases
 
@@ -326,7 +358,9 @@ def replay_cases(lines):
     for l in lines:
         if l.startswith("det_env") or l.startswith("det_control"):
             continue
-        refs.append(Case(l, model=False, oracle=detdec_oracle if l.startswith("det_dec") else det_oracle))
+        cls = SanCase if os.environ.get("VERIF_REPLAY_FLAVOUR") == "asan" else Case
+        refs.append(cls(l, model=False, oracle=detdec_oracle if l.startswith("det_dec") else det_oracle,
+                        flavour=os.environ.get("VERIF_REPLAY_FLAVOUR", "plain") if not env else "plain"))
     out = list(refs)
     if env:
         for b in refs:
